@@ -38,6 +38,7 @@ def run(ctx):
     r4_invariant(ctx, summ)
     r6_failed_population(ctx)
     r7_callers(ctx)
+    r8_slot_index(ctx)
 
 
 # ------------------------------------------------------------------------------------------ R1
@@ -451,7 +452,36 @@ def r7_callers(ctx):
     ctx.floor("C19.R7", "get_set call sites outside cachers.py", n, 1)
 
 
+PROCESS_LOCAL = {"hash", "id", "os.getpid", "getpid", "random.random", "random.randint", "uuid.uuid4", "uuid4", "time.time", "current_thread", "get_ident"}
+
+
+def r8_slot_index(ctx):
+    ctx.rule("C19.R8", "every process maps a key to the same slot of the shared lock table: _index is a function of str(key) through a fixed digest and "
+                       "uses no process-local source (hash() is salted per process, id(), pid, thread ident, time, randomness); every helper takes its slot from _index(key)")
+    fn = ctx.fn(CCH, "ConcurrentCacher._index")
+    calls = [call_name(c) for c in ast.walk(fn) if isinstance(c, ast.Call) and call_name(c)]
+    bad = sorted({c for c in calls if c in PROCESS_LOCAL or c.split(".")[-1] in ("getpid", "uuid4", "get_ident")})
+    ctx.ob("C19.R8", CCH, "ConcurrentCacher._index", fn, "the slot index uses no process-local source", not bad, detail={"calls": sorted(set(calls)), "process-local": bad}, stmt="_index sources")
+    keyp = fn.args.args[1].arg if len(fn.args.args) > 1 else "key"
+    uses_key = any(isinstance(x, ast.Name) and x.id == keyp for x in ast.walk(fn))
+    digest = [c for c in calls if c.split(".")[-1] in ("blake2b", "blake2s", "sha1", "sha256", "md5", "crc32", "adler32", "sha3_256", "sha512")]
+    ctx.ob("C19.R8", CCH, "ConcurrentCacher._index", fn, "the slot index is a fixed digest of the key", uses_key and bool(digest), detail={"digest": digest}, stmt="_index digest")
+    c = ctx.model.cls(CCH, "ConcurrentCacher")
+    n = 0
+    for name, f in sorted(c.methods.items()):
+        for sub in [x for x in ast.walk(f) if isinstance(x, ast.Subscript) and unparse(x.value) in ("self._array", "self._arr", "self._shared")]:
+            pass
+        idx = [x for x in walk_shallow(f) if isinstance(x, ast.Assign) and isinstance(x.value, ast.Call) and call_tail(x.value) == "_index"]
+        for a in idx:
+            n += 1
+            ctx.ob("C19.R8", CCH, f"ConcurrentCacher.{name}", a, "the slot is _index(<the key the helper was called with>)",
+                   len(a.value.args) == 1 and isinstance(a.value.args[0], ast.Name) and a.value.args[0].id in [p.arg for p in f.args.args])
+    ctx.floor("C19.R8", "slot look-ups in the lock helpers", n, 4)
+
+
 CONTROLS = [
+    ("slot from the salted builtin hash", CCH, M.replace_expr("ConcurrentCacher._index", "int.from_bytes(blake2b(str(key).encode('utf-8'), digest_size=self._digest_size).digest(), 'big')",
+                                                            "hash(str(key)) % 2 ** (8 * self._digest_size)"), "C19.R8"),
     ("no release in handler", CCH, M.replace_stmt("ConcurrentCacher.get_set", M.text_has("if self._has_read_lock(key)"), "pass"), "C19.R2"),
     ("lock flag set late", CCH, M.swap_stmts("ConcurrentCacher.rmv", M.simple_has("lock = 'write'"), M.simple_has("self._cache.rmv(key)")), "C19.R2"),
     ("return without release wrapper", CCH, M.replace_expr("ConcurrentCacher.get_set", "self._release_read_on_exit(key, item)", "item"), "C19.R2"),
